@@ -80,6 +80,7 @@ type LedgerCfg struct {
 	BlocksPer  int      `json:"blocksPer"` // real EndBlocks per model EndBlock
 	ModelPrec  int64    `json:"modelPrec"` // PREC of the generating model (slash factor unit)
 	NatFunds   string   `json:"natFunds"`  // model units of native balance per staker (scaled)
+	Path       string   `json:"path"`      // "" / "keeper": keeper entry points; "precompile": assets/delegation precompile Run as the gateway
 }
 
 func kindOf(a string) string {
@@ -125,6 +126,12 @@ func runLedger(args []string) int {
 		gc.Validators = append(gc.Validators, ValCfg{Op: i - 1, Power: 100})
 	}
 	w := NewWorld(gc)
+	if lc.Path == "precompile" {
+		// the gateway is the only caller the precompiles accept
+		prm, _ := w.App.AssetsKeeper.GetParams(w.Ctx)
+		prm.ExocoreLzAppAddress = gatewayAddr.String()
+		must(w.App.AssetsKeeper.SetParams(w.Ctx, prm))
+	}
 	tw := NewTraceWriter(*out)
 	defer tw.Close()
 
@@ -144,6 +151,8 @@ func runLedger(args []string) int {
 }
 
 func init() { commands["ledger"] = runLedger }
+
+var gatewayAddr = common.BytesToAddress(h256("gateway")[:20])
 
 type ledgerDriver struct {
 	w     *World
@@ -185,7 +194,7 @@ func (d *ledgerDriver) cfgJSON() map[string]interface{} {
 		hold = []string{}
 	}
 	return map[string]interface{}{"sord": sord, "oord": oord, "aord": aord, "kind": kind, "deci": deci, "price": price, "pdec": pdec,
-		"registered": reg, "holdops": hold, "unbond": operatortypes.UnbondingExpiration}
+		"registered": reg, "holdops": hold, "unbond": operatortypes.UnbondingExpiration, "hooked": d.lc.Path != "precompile", "path": d.lc.Path}
 }
 
 // give every staker account a known native balance (model units * scale)
@@ -248,6 +257,11 @@ func (d *ledgerDriver) exec(e BEvent, tw *TraceWriter) {
 func (d *ledgerDriver) call(e BEvent, args map[string]interface{}) error {
 	w, ctx := d.w, d.ctx
 	k := w.App
+	if d.lc.Path == "precompile" {
+		if done, err := d.callPrecompile(e, args); done {
+			return err
+		}
+	}
 	switch e.Ev {
 	case "Deposit", "Withdraw":
 		s, a := e.str("s"), e.str("a")
@@ -335,6 +349,59 @@ func (d *ledgerDriver) call(e BEvent, args map[string]interface{}) error {
 		return nil
 	}
 	return fmt.Errorf("unknown event %s", e.Ev)
+}
+
+// callPrecompile executes the event through the assets / delegation precompile as the gateway
+// contract (LST assets only); done=false means "not a precompile event, use the keeper path".
+func (d *ledgerDriver) callPrecompile(e BEvent, args map[string]interface{}) (bool, error) {
+	w, ctx := d.w, d.ctx
+	a := e.str("a")
+	if e.Ev != "Associate" && e.Ev != "Dissociate" && kindOf(a) != "lst" {
+		return false, nil
+	}
+	res := func(ok bool, err error) (bool, error) {
+		if err != nil {
+			return true, err
+		}
+		if !ok {
+			return true, fmt.Errorf("precompile returned false")
+		}
+		return true, nil
+	}
+	switch e.Ev {
+	case "Deposit", "Withdraw":
+		s := e.str("s")
+		x := d.amt(e, "x")
+		args["s"], args["a"], args["x"] = s, a, NI(x)
+		m := "depositLST"
+		if e.Ev == "Withdraw" {
+			m = "withdrawLST"
+		}
+		return res(RunPrecompile(w, ctx, AssetsPrecompileAddr, gatewayAddr, common.Hash{}, m, uint32(LzID), leftAligned32(w.AssetAddr[a].Bytes()), leftAligned32(d.stakerAddr(s, a)), x.BigInt()))
+	case "Delegate", "Undelegate":
+		s, o := e.str("s"), e.str("o")
+		x := d.amt(e, "x")
+		args["s"], args["a"], args["o"], args["x"] = s, a, o, NI(x)
+		nonce := uint64(0)
+		txh := common.Hash{}
+		m := "delegate"
+		if e.Ev == "Undelegate" {
+			m = "undelegate"
+			nonce = e.big("nonce").Uint64()
+			txh = txHashOf(e.str("txh"))
+			args["nonce"], args["txh"] = nonce, e.str("txh")
+		}
+		return res(RunPrecompile(w, ctx, DelegationPrecompileAddr, gatewayAddr, txh, m, uint32(LzID), nonce, leftAligned32(w.AssetAddr[a].Bytes()), leftAligned32(d.stakerAddr(s, a)), []byte(w.Op(o).String()), x.BigInt()))
+	case "Associate":
+		s, o := e.str("s"), e.str("o")
+		args["s"], args["o"] = s, o
+		return res(RunPrecompile(w, ctx, DelegationPrecompileAddr, gatewayAddr, common.Hash{}, "associateOperatorWithStaker", uint32(LzID), leftAligned32(d.stakerAddr(s, "")), []byte(w.Op(o).String())))
+	case "Dissociate":
+		s := e.str("s")
+		args["s"] = s
+		return res(RunPrecompile(w, ctx, DelegationPrecompileAddr, gatewayAddr, common.Hash{}, "dissociateOperatorFromStaker", uint32(LzID), leftAligned32(d.stakerAddr(s, ""))))
+	}
+	return false, nil
 }
 
 func (d *ledgerDriver) findRecordKey(o string, nonce uint64, txh string) []byte {
